@@ -31,7 +31,7 @@ func c06Classify(p interface{}) (string, string) {
 	switch {
 	case strings.Contains(s, "Invalid quorum on proposal"):
 		return "C06/gov-endblock/more-votes-than-voters", "a voter who loses the vote permission after voting makes IsQuorum fail (votes > voters) and the gov EndBlocker panics"
-	case strings.Contains(s, "negative coin amount"):
+	case strings.Contains(s, "negative coin amount") && strings.Contains(s, "x/spending") && !strings.Contains(s, "x/ubi"):
 		return "C06/spending-distribution/underfunded-pool-coins-sub", "enactment of a spending-pool distribution on an under-funded pool panics inside Coins.Sub (ApplyProposal does not recover)"
 	case strings.Contains(s, "SlashStakingPool") && strings.Contains(s, "invalid coins"):
 		return "C06/slash-validator-enactment/zero-burn-invalid-coins", "enactment of a passed SlashValidator proposal whose slashed amount of the default denomination is zero (average slash 0, or nothing staked in it) calls BurnCoins with the invalid coin set {0ukex} and panics on the returned error; the gov EndBlocker does not recover"
@@ -100,7 +100,7 @@ func runC06(r *Rec) {
 		br := blk(nil, 0, 400*time.Second, nil)
 		r.Case("witness/quorum-panic", true)
 		if br.Panicked != nil {
-			if key, what := c06Classify(br.Panicked); key != "" {
+			if key, what := c06Classify(c06Site(br.Panicked, br.Stack)); key != "" {
 				r.Known(key, what+fmt.Sprintf(" [panic in %s: %.120v]", br.Phase, br.Panicked))
 			} else {
 				r.Fail("C06/witness/unexpected-panic", fmt.Sprint(br.Panicked), nil)
@@ -122,7 +122,7 @@ func runC06(r *Rec) {
 		}})
 		r.Case("witness/spending-distribution-panic", true)
 		if br.Panicked != nil {
-			if key, what := c06Classify(br.Panicked); key != "" {
+			if key, what := c06Classify(c06Site(br.Panicked, br.Stack)); key != "" {
 				r.Known(key, what+fmt.Sprintf(" [%.100v]", br.Panicked))
 			} else {
 				r.Fail("C06/witness/unexpected-panic", fmt.Sprint(br.Panicked), nil)
@@ -531,7 +531,7 @@ func c06History(r *Rec, h int, nBlocks int) {
 		}
 		r.Case(fmt.Sprintf("%s/block-%d", label, b), nontrivial)
 		if br.Panicked != nil {
-			key, what := c06Classify(br.Panicked)
+			key, what := c06Classify(c06Site(br.Panicked, br.Stack))
 			if key != "" {
 				r.Known(key, what)
 			} else {
